@@ -81,7 +81,9 @@ pub fn act_elem_check(name: &str, x: f32, fwd: f32, bwd: f32) -> Option<String> 
     // the derivative of tanh/sigmoid underflows gracefully; allow an absolute slack at the f32 floor
     // sigmoid' = y(1-y) is computed from the rounded y: the rounding of y (<= 2^-24 absolute) carries over
     // to the product as an absolute error, so the comparison is absolute there
-    let abs_slack = if name == "sigmoid" { 2e-7 } else { 1e-37 };
+    // the same holds for tanh' computed as 1 - tanh^2 (the rounding of tanh, <= 2^-24, carries over absolutely);
+    // both 1/cosh^2 and 1 - tanh^2 are the derivative up to single-precision rounding of an O(1) function
+    let abs_slack = if name == "sigmoid" || name == "tanh" { 2e-7 } else { 1e-37 };
     if !close(bwd, rb, 8e-6, abs_slack) {
         return Some(format!("backward({:e}) = {:e}, derivative is {:e}", x, bwd, rb));
     }
